@@ -116,6 +116,27 @@ class EditorAnalyzer(zone.Analyzer):
         return True
 
 
+def submit_problems(p, an, st):
+    """Enter: a non-empty line becomes the newest history entry (Tui::handle_input executes
+    `history.last()` right after handing Enter to the editor, so anything else would execute a
+    different line than the one submitted)"""
+    kc = p.need_type("crossterm::event::KeyCode")
+    enter = [i for i, v in enumerate(kc["variants"]) if v["n"] == "Enter"][0]
+    keys = [v for k, v in st.env.items() if k and k[0] == "#variant"]
+    if enter not in keys:
+        return []
+    n0 = Lin("n0", 0)
+    if st.dbm.le(n0, Lin("0", 0)):
+        return []          # the line was empty: nothing is submitted
+    last = st.env.get(("S", "history", "#last"))
+    h = an.vlen(st, ("S", "history"))
+    ok = (isinstance(last, tuple) and last[0] == "collected" and last[1][0] == ("S", "input") and last[1][1] == n0
+          and h == Lin("h0", 1))
+    if ok:
+        return []
+    return ["Enter on a non-empty line does not make that line the newest history entry (history last: %r, length %r)" % (last, h)]
+
+
 def analyse(p):
     """-> {method: {bb: [(ok, detail), ...]}}, {method: [exit problems]}"""
     sites = {}
@@ -134,6 +155,8 @@ def analyse(p):
                 for st in an.exit_states:
                     npaths += 1
                     pr = an.inv_problems(st)
+                    if m == "handle":
+                        pr = pr + submit_problems(p, an, st)
                     if pr:
                         exits[m].append("entry (history %s, completions %s): %s" % (hi_tag, cc_tag, "; ".join(pr)))
     return sites, exits, npaths
